@@ -847,10 +847,17 @@ class Gen:
             i, vs = self.filt(0)
             return [(5, 0, i, vs)]
         if n == "p_update":
-            return [(6, self.rule(0), self.rule(0))]
+            o, nw = self.rule(0), self.rule(0)
+            if self.kind.prio and rng.random() < 0.6:
+                nw = [o[0]] + nw[1:]          # same priority: the update is admissible on a priority model
+            return [(6, o, nw)]
         if n == "p_update_many":
             a = self.batch(0)
             b = [self.rule(0) for _ in a] if rng.random() < 0.9 else self.batch(0)
+            if self.kind.prio:
+                # mostly priority-preserving pairs, so that a batch with a valid prefix and ONE mismatching
+                # pair (refused as a whole) is common
+                b = [([x[0]] + y[1:]) if rng.random() < 0.75 else y for x, y in zip(a, b)] + b[len(a):]
             return [(7, a, b)]
         if n == "p_update_filtered":
             i, vs = self.filt(0)
